@@ -26,6 +26,14 @@ claim('C27',
       'TLA+ state machine + TLC exhaustive check + transition-graph replay into the implementation', '5.3, 6/C27')
 
 
+claim('C09',
+      'TLC checks IterBound, StopsAtFirst, FailIffNotMet, RaiseIffFail, SuccessSound, StopJustified on spec/mech/Solver.tla for every '
+      'norm history over {0,1/4,1,2,4,NaN,Inf} x option grid x six solver classes; every maximal behaviour is replayed into the real '
+      'solver class with scripted norms and iteration counts, failure class and AnalysisError compared.',
+      'Norms are injected at _iter_get_norm (original still executed); ScipyKrylov and the line searches are not covered by this loop spec.',
+      'TLA+ loop state machine + TLC exhaustive check + replay of every maximal behaviour into the real solvers', '5.1, 6/C09')
+
+
 def main():
     checks = []
     for pid in ALL:
